@@ -274,6 +274,8 @@ func (t *translator) leanType(ty types.Type) (string, error) {
 			return "Go.Reader", nil
 		case "hash.Hash":
 			return "Go.Mac", nil
+		case "math/big.Int":
+			return "Nat", nil
 		}
 		if l, ok := t.extern.Types[key]; ok && (l == "" || obj.Pkg().Path() != t.curPkg) {
 			if l == "" {
@@ -385,6 +387,9 @@ func (t *translator) zero(ty types.Type) (string, error) {
 		}
 		if lt == "Go.Mac" {
 			return "({} : Go.Mac)", nil
+		}
+		if lt == "Nat" {
+			return "(0 : Nat)", nil
 		}
 		if _, ok := ty.Underlying().(*types.Interface); ok {
 			return "(" + lt + ".nil_)", nil
